@@ -10,6 +10,13 @@ replay output with the model's shown lines (correspondence), and (2) with the re
 (the property, evaluated on the implementation's output alone), plus B/END once and entry/exit
 pairing per task.
 
+Argument buffer: translators/scriptargs2lean.py turns the size / advance expressions of libmcount's
+save_to_argbuf, replay's get_argspec_string and the python / luajit setup_argument_context into
+lean/Uft/Gen/ScriptArgs.lean on every run; c18_args_decode_roundtrip_{replay,python,lua} are proved
+against that file (a changed ALIGN breaks the proof).  H3 writes payloads with every argument format
+in random order and count and compares each decoded ctx["args"] / ctx["retval"] element with the text
+replay prints for the same record (Python and Lua).
+
 Tie (H1, record time): the real libmcount linked with harness/h1_c18_driver.c (scripted clock, up to
 4 threads, UFTRACE_SCRIPT=<x.testing> so that script_init() succeeds without an interpreter and the
 driver's own logging functions are the script callbacks) on random call forests with random filters
@@ -36,6 +43,8 @@ FN_OF_ADDR = {a: k for k, a in enumerate(ADDR)}
 FN_OF_NAME = {n: k for k, n in enumerate(NAMES)}
 T0 = 2000
 HAVE_LUA = True
+OCT_CASE = {"python": True, "lua": True}     # does the binding have `case ARG_FMT_OCT` (set from the translator)
+F_OCT = "F-C18-OCT"
 F_ARGS = "F-C18-ARGS"
 F_EXITHOOK = "F-C18-EXITHOOK"
 
@@ -115,7 +124,9 @@ def rand_value(rng, sp, lua):
         s = "".join(rng.choice(STRCH) for _ in range(n))
         return "nulL" if s == "NULL" else s
     if k == "flt":
-        return rng.randint(-79999, 79999) / 8.0
+        if sp["size"] == 4 or rng.random() < 0.3:
+            return rng.randint(-79999, 79999) / 8.0     # exact as a float
+        return rng.randint(-10 ** 12, 10 ** 12) / 1000.0  # needs the precision of a double
     if k == "ptr":
         return rng.choice([0, ADDR[rng.randrange(NF)], 0x7f0012345678, rng.randrange(1 << 40) + (1 << 40)])
     if k == "enum":
@@ -379,6 +390,10 @@ def gen_case(rng, idx, tier, group):
     ties = rng.random() < 0.35
     big = tier == "thorough" and rng.random() < 0.15
     case = {"idx": idx, "group": group, "payloads": [], "args": rng.random() < 0.6, "argless": 0}
+    case["lang"] = "lua" if (group != "argless" and rng.random() < (0.35 if group in ("args", "oct") else 0.2) and HAVE_LUA) else "py"
+    if group in ("args", "argless", "oct"):
+        case["args"] = True
+    case["specs"] = gen_specs(rng, group)
     if ties:
         grid = rng.choice([1, 10])
 
@@ -394,28 +409,42 @@ def gen_case(rng, idx, tier, group):
             return rng.randint(10 ** 6, 5 * 10 ** 9)
     tids = rng.sample(range(100, 30000), ntask)
     tasks = []
-    argless = 0.0
-    if group == "argless":
-        case["args"] = True
-        argless = 0.6
+    argless = 0.6 if group == "argless" else 0.0
     for k in range(ntask):
         nrec = rng.choice([2, 4, 8, 14, 24] + ([150] if big else []))
         maxdepth = rng.choice([1, 2, 3, 5, 7] + ([30] if big else []))
         recs, nopen = gen_task(rng, case, T0 + rng.randint(0, 40) * (grid if ties else 1), step, nrec, maxdepth,
                                rng.random() < 0.3, argless)
         tasks.append({"tid": tids[k], "recs": recs, "open": nopen})
-    if group == "argless" and case["argless"] == 0:
-        # make sure the shape is there: alpha(a, b) followed by an alpha ENTRY without payload
+    if group in ("argless", "args", "oct"):
+        # make sure the interesting shapes are there: every function with a spec is called once more at the end
+        # of task 0 (argless: with a payload first, then an ENTRY without payload)
         t = max([r[1] for tk in tasks for r in tk["recs"]] + [T0]) + 10
-        case["payloads"].append(("ii", rand_vals(rng, "ii")))
-        tasks[0]["recs"] = tasks[0]["recs"][:0] + [("E", t, 0, 1, len(case["payloads"])), ("X", t + 10, 0, 1, 0),
-                                                   ("E", t + 20, 0, 1, 0), ("X", t + 40, 0, 1, 0)]
-        tasks[0]["open"] = 0
-        case["argless"] = 1
+        lua = case["lang"] == "lua"
+        extra = []
+        for f in sorted(case["specs"]):
+            sp = case["specs"][f]
+            pa = pr = 0
+            if sp["args"]:
+                case["payloads"].append({"fn": f, "ret": False, "vals": [rand_value(rng, s, lua) for s in sp["args"]]})
+                pa = len(case["payloads"])
+            if sp["ret"] and group != "argless":
+                case["payloads"].append({"fn": f, "ret": True, "vals": [rand_value(rng, sp["ret"], lua)]})
+                pr = len(case["payloads"])
+            extra += [("E", t, 0, f, pa), ("X", t + 7, 0, f, pr)]
+            t += 20
+            if group == "argless" and sp["args"]:
+                extra += [("E", t, 0, f, 0), ("X", t + 9, 0, f, 0)]
+                case["argless"] += 1
+                t += 20
+        if tasks[0]["open"]:
+            tasks[0]["recs"] = []
+            tasks[0]["open"] = 0
+        tasks[0]["recs"] = tasks[0]["recs"] + extra
     case["tasks"] = tasks
     # options given to both commands
     o = {"F": [], "N": [], "D": None, "t": None, "noargs": False, "tid": None}
-    if group != "argless":
+    if group not in ("argless", "oct"):
         if rng.random() < 0.35:
             o["F"] = rng.sample(range(NF), rng.choice([1, 1, 2]))
         if rng.random() < 0.35:
@@ -428,11 +457,15 @@ def gen_case(rng, idx, tier, group):
             o["noargs"] = True
         if ntask > 1 and rng.random() < 0.15:
             o["tid"] = sorted(rng.sample(range(ntask), rng.randint(1, ntask - 1)))
+    if group == "args":
+        o["noargs"] = False
+        if rng.random() < 0.6:
+            o["F"], o["N"], o["D"], o["t"], o["tid"] = [], [], None, None, None
     case["opts"] = o
     # the script's own function list
     funcs, matched = [], None
     r = rng.random()
-    if group == "funcs" or r < 0.3:
+    if group == "funcs" or (r < 0.3 and group not in ("args", "oct", "argless")):
         k = rng.choice([1, 1, 2, 3])
         sel = rng.sample(range(NF), k)
         if rng.random() < 0.3:
@@ -444,7 +477,6 @@ def gen_case(rng, idx, tier, group):
         matched = sorted(f for f in range(NF) if any(re.search(p, NAMES[f]) if re.search(r"[\^$|()]", p) else p == NAMES[f]
                                                       for p in funcs))
     case["funcs"], case["matched"] = funcs, matched
-    case["lang"] = "lua" if (group != "argless" and rng.random() < 0.2 and HAVE_LUA) else "py"
     case["merge"] = rng.random() < 0.5          # replay with leaf folding (default) or --no-merge
     return case
 
@@ -452,7 +484,10 @@ def gen_case(rng, idx, tier, group):
 PY_SCRIPT = '''import json
 %s
 def _a(v):
-    return json.dumps(v)
+    try:
+        return json.dumps(v)
+    except Exception as e:
+        return json.dumps("<unprintable: %%s>" %% type(e).__name__)
 def uftrace_begin(ctx):
     print("B %%d %%d" %% (1 if ctx["record"] else 0, len(ctx["cmds"])))
 def uftrace_entry(ctx):
@@ -464,9 +499,18 @@ def uftrace_end():
 '''
 
 LUA_SCRIPT = '''%s
+function ser(v)
+  if type(v) == "table" then
+    local t = {}
+    for i, x in ipairs(v) do t[#t + 1] = ser(x) end
+    return "[" .. table.concat(t, ", ") .. "]"
+  elseif type(v) == "number" then return string.format("%%.17g", v)
+  elseif v == nil then return "null"
+  else return '"' .. tostring(v) .. '"' end
+end
 function uftrace_begin(ctx) print(string.format("B %%d 0", ctx["record"] and 1 or 0)) end
-function uftrace_entry(ctx) print(string.format("E %%d %%d %%.0f %%.0f %%s null", ctx["tid"], ctx["depth"], ctx["timestamp"], ctx["address"], ctx["name"])) end
-function uftrace_exit(ctx) print(string.format("X %%d %%d %%.0f %%.0f %%.0f %%s null", ctx["tid"], ctx["depth"], ctx["timestamp"], ctx["duration"], ctx["address"], ctx["name"])) end
+function uftrace_entry(ctx) print(string.format("E %%d %%d %%.0f %%.0f %%s %%s", ctx["tid"], ctx["depth"], ctx["timestamp"], ctx["address"], ctx["name"], ser(ctx["args"]))) end
+function uftrace_exit(ctx) print(string.format("X %%d %%d %%.0f %%.0f %%.0f %%s %%s", ctx["tid"], ctx["depth"], ctx["timestamp"], ctx["duration"], ctx["address"], ctx["name"], ser(ctx["retval"]))) end
 function uftrace_end() print("END") end
 '''
 
@@ -479,18 +523,26 @@ def script_text(case):
     return LUA_SCRIPT % fl
 
 
+def payload_bytes(case, tok):
+    if not tok:
+        return b""
+    p = case["payloads"][tok - 1]
+    return enc_payload(specs_of(case, p["fn"], p["ret"]), p["vals"])
+
+
 def write_case(case, d):
     shutil.rmtree(d, ignore_errors=True)
     tasks = []
     pid = case["tasks"][0]["tid"]
     for t in case["tasks"]:
-        recs = []
-        for typ, tm, dep, fn, p in t["recs"]:
-            pb = enc_payload(*case["payloads"][p - 1]) if p else b""
-            recs.append(D.Rec(tm, typ, dep, ADDR[fn], pb))
+        recs = [D.Rec(tm, typ, dep, ADDR[fn], payload_bytes(case, p)) for typ, tm, dep, fn, p in t["recs"]]
         tasks.append(D.Task(t["tid"], recs, pid=pid))
-    cls = ArgDir if case["args"] else D.DataDir
-    cls(SYMS, tasks).write(d)
+    if case["args"] and case["specs"]:
+        dd = ArgDir(SYMS, tasks)
+        dd.specs = case["specs"]
+    else:
+        dd = D.DataDir(SYMS, tasks)
+    dd.write(d)
     ext = ".py" if case["lang"] == "py" else ".lua"
     sp = os.path.join(d, "c18log" + ext)
     with open(sp, "w") as f:
@@ -521,33 +573,24 @@ def model_line(case, cmd, argsfixed=1, funcs=True):
 
     def lst(l):
         return ",".join(str(x) for x in l) if l else "-"
+    trig = sorted(int(f) for f, sp in case["specs"].items() if sp["args"]) if case["args"] else []
     w = [cmd, "depth=%d" % (o["D"] if o["D"] is not None else 1024), "modein=%d" % (1 if o["F"] else 0),
          "thr=%d" % (o["t"] or 0), "showargs=%d" % (0 if o["noargs"] else 1), "argsfixed=%d" % argsfixed,
          "F=" + lst(o["F"]), "N=" + lst(o["N"]),
          "funcs=" + (lst(case["matched"] if case["matched"] else [NF + 7]) if (funcs and case["funcs"]) else "-"),
-         "argtrig=" + (lst(sorted(ARGSPEC)) if case["args"] else "-")]
+         "argtrig=" + lst(trig)]
     for i, t in enumerate(case["tasks"]):
         w.append("|")
         if o["tid"] is not None and i not in o["tid"]:
             continue
-        w += ["%s:%d:%d:%d:%d" % r for r in t["recs"]]
+        w += ["%s:%d:%d:%d:%d" % tuple(r) for r in t["recs"]]
     return " ".join(w)
 
 
-# ------------------------------------------------------------------ canonical forms
-def show_args(case, tok, is_ret):
-    """payload token -> what the script prints for args / retval (JSON), '-' for none"""
-    if tok == 0:
-        return "null"
-    kind, vals = case["payloads"][tok - 1]
-    if kind == "s":
-        return json.dumps([vals[0]])
-    u = [v & 0xffffffffffffffff for v in vals]
-    return json.dumps(u[0]) if is_ret else json.dumps(u)
-
-
-def canon_model(case, line, lua=False):
-    """model output -> list of tuples in the format of canon_script()"""
+# ------------------------------------------------------------------ canonical events
+# ('B',) ('END',) ('E', tid, depth, time, addr, name, ARGS) ('X', tid, depth, time, dur, addr, name, RET)
+# ARGS / RET: None (no key / nothing printed) or the list of canonical values (canon_truth & co.)
+def ev_model(case, line):
     out = []
     tids = [t["tid"] for t in case["tasks"]]
     for tok in line.split():
@@ -558,16 +601,15 @@ def canon_model(case, line, lua=False):
         p = tok.split(":")
         if p[0] == "E":
             _, tid, dep, tm, fn, a = p
-            out.append(("E", tids[int(tid)], int(dep), int(tm), ADDR[int(fn)], NAMES[int(fn)],
-                        "null" if lua else show_args(case, int(a), False)))
+            out.append(("E", tids[int(tid)], int(dep), int(tm), ADDR[int(fn)], NAMES[int(fn)], canon_token_list(case, int(a))))
         else:
             _, tid, dep, tm, dur, fn, a = p
             out.append(("X", tids[int(tid)], int(dep), int(tm), int(dur), ADDR[int(fn)], NAMES[int(fn)],
-                        "null" if lua else show_args(case, int(a), True)))
+                        canon_token_list(case, int(a))))
     return out
 
 
-def canon_script(text):
+def ev_script(case, text):
     out, bad = [], []
     for line in text.split("\n"):
         if not line:
@@ -581,9 +623,13 @@ def canon_script(text):
             elif p[0] == "END":
                 out.append(("END",))
             elif p[0] == "E":
-                out.append(("E", int(p[1]), int(p[2]), int(p[3]), int(p[4]), p[5], " ".join(p[6:])))
+                fn = FN_OF_NAME.get(p[5])
+                out.append(("E", int(p[1]), int(p[2]), int(p[3]), int(p[4]), p[5],
+                            canon_script_list(specs_of(case, fn, False), " ".join(p[6:]), False)))
             elif p[0] == "X":
-                out.append(("X", int(p[1]), int(p[2]), int(p[3]), int(p[4]), int(p[5]), p[6], " ".join(p[7:])))
+                fn = FN_OF_NAME.get(p[6])
+                out.append(("X", int(p[1]), int(p[2]), int(p[3]), int(p[4]), int(p[5]), p[6],
+                            canon_script_list(specs_of(case, fn, True), " ".join(p[7:]), True)))
             else:
                 bad.append("unparsed script line %r" % line)
         except (ValueError, IndexError):
@@ -597,10 +643,13 @@ R_L = re.compile(r"^([A-Za-z_]\w*)\((.*)\)(?: = (.*))?;$")
 R_X = re.compile(r"^\}(?: = (.*);)? /\* ([A-Za-z_]\w*) \*/$")
 
 
-def parse_replay(text):
-    """`uftrace replay -f duration,tid,addr,time` -> unfolded lines
-    ('E', tid, depth, time, addr, name, argtext) / ('X', tid, depth, time|None, durtext, addr, name, rettext)"""
+def ev_replay(case, text):
+    """`uftrace replay -f duration,tid,addr,time` -> unfolded events; the duration is the printed text, the
+    timestamp of a folded exit is None"""
     out, bad = [], []
+
+    def A(name, txt, is_ret):
+        return canon_replay_list(specs_of(case, FN_OF_NAME.get(name), is_ret), txt)
     for row in text.split("\n"):
         if not row or row.startswith("#"):
             continue
@@ -611,7 +660,6 @@ def parse_replay(text):
             bad.append("unparsed replay line %r" % row)
             continue
         dur = ("%s %s" % (m.group(1), m.group(2))).strip() if m.group(1) else ""
-        # '%3d.%03d': "0.010 us" is printed as "  0.010 us"
         tid, addr = int(m.group(3)), int(m.group(4), 16)
         tm = int(m.group(5)) * 10 ** 9 + int(m.group(6))
         depth, body = len(m.group(7)) // 2, m.group(8)
@@ -619,48 +667,28 @@ def parse_replay(text):
             bad.append("odd indentation %r" % row)
         e = R_E.match(body)
         if e:
-            out.append(("E", tid, depth, tm, addr, e.group(1), e.group(2)))
+            out.append(("E", tid, depth, tm, addr, e.group(1), A(e.group(1), e.group(2), False)))
             continue
         x = R_X.match(body)
         if x:
-            out.append(("X", tid, depth, tm, dur, addr, x.group(2), x.group(1) or ""))
+            out.append(("X", tid, depth, tm, dur, addr, x.group(2), A(x.group(2), x.group(1), True)))
             continue
         l = R_L.match(body)
         if l:
-            out.append(("E", tid, depth, tm, addr, l.group(1), l.group(2)))
-            out.append(("X", tid, depth, None, dur, addr, l.group(1), l.group(3) or ""))
+            out.append(("E", tid, depth, tm, addr, l.group(1), A(l.group(1), l.group(2), False)))
+            out.append(("X", tid, depth, None, dur, addr, l.group(1), A(l.group(1), l.group(3), True)))
             continue
         bad.append("unparsed replay graph part %r" % row)
     return out, bad
 
 
-def s64(u):
-    return u - (1 << 64) if u >= (1 << 63) else u
-
-
-def args_as_replay(js, is_ret):
-    """what the script got (JSON) in the notation replay prints"""
-    v = json.loads(js)
-    if v is None:
-        return ""
-    if is_ret:
-        return str(s64(v)) if isinstance(v, int) else json.dumps(v)
-    return ", ".join('"%s"' % x if isinstance(x, str) else str(s64(x)) for x in v)
-
-
-def script_as_replay(cbs, lua):
-    """script callbacks in the form of parse_replay() lines"""
-    out = []
-    for c in cbs:
-        if c[0] == "E":
-            out.append(("E", c[1], c[2], c[3], c[4], c[5], None if lua else args_as_replay(c[6], False)))
-        elif c[0] == "X":
-            out.append(("X", c[1], c[2], c[3], fmt_unit(c[4]), c[5], c[6], None if lua else args_as_replay(c[7], True)))
-    return out
+def as_replay(evs):
+    """script / model events in the form of ev_replay(): durations as printed text"""
+    return [(e[:4] + (fmt_unit(e[4]),) + e[5:]) if e[0] == "X" else e for e in evs if e[0] in "EX"]
 
 
 def same_as_replay(s, r):
-    """a script callback against the replay line it corresponds to; None = equal"""
+    """an event against the replay event it corresponds to; None = equal, else the name of the field"""
     if s[0] != r[0]:
         return "kind"
     if s[0] == "E":
@@ -668,7 +696,7 @@ def same_as_replay(s, r):
     else:
         names = ["kind", "tid", "depth", "timestamp", "duration", "address", "name", "retval"]
     for n, a, b in zip(names, s, r):
-        if a is None or b is None:         # not printed on that side (lua args, timestamp of a folded exit)
+        if n == "timestamp" and (a is None or b is None):       # the exit of a folded leaf has no line of its own
             continue
         if a != b:
             return n
@@ -691,11 +719,31 @@ def pairing(cbs, tasks_wf=True):
     return None
 
 
+def only_stale_args(cbs, model):
+    """the script differs from the (repaired) model only by `args` present where the model has none"""
+    if len(cbs) != len(model):
+        return False
+    diff = False
+    for a, b in zip(cbs, model):
+        if a == b:
+            continue
+        if a[0] == "E" and b[0] == "E" and a[:6] == b[:6] and b[6] is None and a[6] is not None:
+            diff = True
+            continue
+        return False
+    return diff
+
+
+def has_oct(case):
+    return any(s.get("fmt") == "o" for sp in case["specs"].values() for s in sp["args"] + ([sp["ret"]] if sp["ret"] else []))
+
+
 # ------------------------------------------------------------------ H3 part
 def run_h3(ctx, uftrace, known):
     rng = ctx.rng
     quick = ctx.tier == "quick"
-    plan = [("plain", 170 if quick else 9000), ("funcs", 60 if quick else 3000), ("argless", 14 if quick else 200)]
+    plan = [("plain", 150 if quick else 8000), ("funcs", 50 if quick else 2500), ("args", 70 if quick else 4000),
+            ("argless", 12 if quick else 200), ("oct", 8 if quick else 100)]
     cases = []
     for group, n in plan:
         for _ in range(n):
@@ -725,11 +773,12 @@ def run_h3(ctx, uftrace, known):
     mout = C.run_model("C18", mlines)
 
     st = {"cases": len(cases), "callbacks": 0, "script_vs_model_bad": 0, "replay_vs_model_bad": 0, "monitor_bad": 0,
-          "prefix_args": 0, "lua": 0, "with_funcs": 0, "with_filters": 0, "with_args": 0, "open_calls": 0,
-          "argless_entries": 0, "folded": 0}
+          "prefix_args": 0, "oct_defect": 0, "lua": 0, "with_funcs": 0, "with_filters": 0, "with_args": 0, "open_calls": 0,
+          "argless_entries": 0, "folded": 0, "arg_values_compared": 0, "arg_kinds": {}, "str_len_mod4": [0, 0, 0, 0],
+          "multi_arg_payloads": 0}
     distinct = set()
     samples = []
-    reported = 0
+    reported = {"": 0, F_OCT: 0}
     for i, (case, r) in enumerate(zip(cases, res)):
         rc1, out1, err1, rc2, out2, err2 = r
         lua = case["lang"] == "lua"
@@ -740,23 +789,32 @@ def run_h3(ctx, uftrace, known):
         st["with_args"] += case["args"]
         st["open_calls"] += sum(t["open"] for t in case["tasks"])
         st["argless_entries"] += case["argless"]
-        m_fixed = canon_model(case, mout[4 * i], lua)
-        m_pre = canon_model(case, mout[4 * i + 1], lua)
-        m_all = canon_model(case, mout[4 * i + 3], lua)
-        cbs, bad1 = canon_script(out1)
-        rep, bad2 = parse_replay(out2)
+        m_fixed = ev_model(case, mout[4 * i])
+        m_show = ev_model(case, mout[4 * i + 2])
+        m_all = ev_model(case, mout[4 * i + 3])
+        cbs, bad1 = ev_script(case, out1)
+        rep, bad2 = ev_replay(case, out2)
         st["callbacks"] += len(cbs)
         st["folded"] += sum(1 for x in rep if x[0] == "X" and x[3] is None)
+        for c in cbs:
+            if c[0] in "EX" and c[-1]:
+                st["arg_values_compared"] += len(c[-1])
+                st["multi_arg_payloads"] += len(c[-1]) > 1
+                for k, v in c[-1]:
+                    st["arg_kinds"][k] = st["arg_kinds"].get(k, 0) + 1
+                    if k == "str":
+                        st["str_len_mod4"][len(v) % 4] += 1
         if len(m_fixed) > 2:
-            distinct.add(mlines[4 * i])
+            distinct.add(mlines[4 * i] + "#" + json.dumps(case["specs"], sort_keys=True) + case["lang"])
         if len(samples) < 3 and i % 53 == 7:
             samples.append({"options": cmd_opts(case), "UFTRACE_FUNCS": case["funcs"], "lang": case["lang"],
+                            "specs": {NAMES[int(f)]: [s["text"] for s in sp["args"]] + ["= " + sp["ret"]["text"] if sp["ret"] else ""]
+                                      for f, sp in case["specs"].items()},
                             "model_input": mlines[4 * i][:400], "script_output": out1[:300], "model": mout[4 * i][:300]})
-        problems = []          # (kind, what, no_failing_input)
+        problems = []
         if rc1 != 0 or rc2 != 0:
-            problems.append(("run", "uftrace script rc=%s replay rc=%s: %s %s" % (rc1, rc2, err1[-200:], err2[-200:]), True))
-        for b in bad1 + bad2:
-            problems.append(("parse", b, True))
+            problems.append("uftrace script rc=%s replay rc=%s: %s %s" % (rc1, rc2, err1[-200:], err2[-200:]))
+        problems += bad1 + bad2
         # ---- the property on the implementation's output
         mon = None
         kinds = [c[0] for c in cbs]
@@ -764,7 +822,7 @@ def run_h3(ctx, uftrace, known):
             mon = "uftrace_begin / uftrace_end are not called exactly once, first and last"
         body = [c for c in cbs if c[0] in "EX"]
         want = rep if case["matched"] is None else [x for x in rep if FN_OF_NAME.get(x[5] if x[0] == "E" else x[6]) in case["matched"]]
-        got = script_as_replay(body, lua)
+        got = as_replay(body)
         args_only = False
         if mon is None:
             if len(got) != len(want):
@@ -775,7 +833,7 @@ def run_h3(ctx, uftrace, known):
                     f = same_as_replay(s, w)
                     if f:
                         mon = "callback #%d %r differs from the replay line %r in %s" % (k, s, w, f)
-                        args_only = f == "args"
+                        args_only = f in ("args", "retval")
                         break
         if mon is None and case["funcs"]:
             outside = [c for c in body if FN_OF_NAME.get(c[5] if c[0] == "E" else c[6]) not in case["matched"]]
@@ -783,17 +841,11 @@ def run_h3(ctx, uftrace, known):
                 mon = "callback for %r, which is not in UFTRACE_FUNCS" % (outside[0],)
         if mon is None:
             mon = pairing(body)
-        # ---- correspondence
+        # ---- correspondence: script against the model's callbacks, replay against the model's shown lines
         sm = cbs == m_fixed
         if not sm:
             st["script_vs_model_bad"] += 1
-        # replay output against the model's shown lines (always with payloads: replay prints them)
-        mrep = []
-        for x in canon_model(case, mout[4 * i + 2], False):
-            if x[0] == "E":
-                mrep.append(("E", x[1], x[2], x[3], x[4], x[5], args_as_replay(x[6], False)))
-            else:
-                mrep.append(("X", x[1], x[2], x[3], fmt_unit(x[4]), x[5], x[6], args_as_replay(x[7], True)))
+        mrep = as_replay(m_show)
         rm = len(mrep) == len(rep) and all(same_as_replay(a, b) is None for a, b in zip(mrep, rep))
         if not rm:
             st["replay_vs_model_bad"] += 1
@@ -801,31 +853,42 @@ def run_h3(ctx, uftrace, known):
         if case["matched"] is not None:
             filt = [c for c in m_all if c[0] not in "EX" or FN_OF_ADDR[c[4] if c[0] == "E" else c[5]] in case["matched"]]
             if filt != m_fixed:
-                problems.append(("model", "model: run with funcs differs from the filtered full run", True))
-        is_prefix = (not sm) and cbs == m_pre and m_pre != m_fixed
+                problems.append("model: run with funcs differs from the filtered full run")
         if mon:
             st["monitor_bad"] += 1
-        if is_prefix and (mon is None or args_only):
+        finding = None
+        if not sm and rm and only_stale_args(cbs, m_fixed) and case["argless"]:
+            finding = F_ARGS
             st["prefix_args"] += 1
-            f = next((k for k in known if k.get("id") == F_ARGS), None)
+        elif (mon or not sm) and rm and has_oct(case) and not (OCT_CASE["python" if not lua else "lua"]):
+            finding = F_OCT                 # the binding has no `case ARG_FMT_OCT` (seen by the translator)
+            st["oct_defect"] += 1
+        if finding:
+            f = next((k for k in known if k.get("id") == finding), None)
             if f is not None:
-                C.known(ctx, f, "finding=%s uftrace script passes the stale argument buffer to uftrace_entry for an ENTRY "
-                        "record without payload (implementation matches the pre-fix model)" % F_ARGS)
+                C.known(ctx, f, {
+                    F_ARGS: "finding=%s uftrace script passes the stale argument buffer to uftrace_entry for an ENTRY "
+                            "record without payload (implementation matches the pre-fix model)" % F_ARGS,
+                    F_OCT: "finding=%s the python / lua bindings have no case for ARG_FMT_OCT: an /o argument is skipped "
+                           "without advancing, the following arguments are decoded from the wrong offset" % F_OCT}[finding])
                 continue
-        if (mon or not sm or rm is False or problems) and reported < 3:
-            reported += 1
+        key = F_OCT if finding == F_OCT else ""
+        if (mon or not sm or not rm or problems) and reported[key] < (2 if key else 3):
+            reported[key] += 1
             C.violation(ctx, "h3-case%d" % case["idx"], {
                 "kind": "property-violated-on-implementation" if mon else "model-code-disagreement",
                 "what": mon or ("script output differs from the model" if not sm else
-                                "replay output differs from the model" if rm is False else problems[0][1]),
-                "finding": F_ARGS if is_prefix else None,
-                "matches_prefix_model_%s" % F_ARGS: is_prefix,
-                "theorem": "c18_callbacks_eq_replay" if mon else None,
+                                "replay output differs from the model" if not rm else problems[0]),
+                "finding": finding,
+                "theorem": ("c18_args_decode_roundtrip_%s" % ("lua" if lua else "python")) if args_only else
+                           ("c18_callbacks_eq_replay" if mon else None),
                 "options": cmd_opts(case), "UFTRACE_FUNCS": case["funcs"], "lang": case["lang"],
-                "tasks": case["tasks"], "payloads": case["payloads"], "case": case,
+                "argspecs": {NAMES[int(f)]: {"args": [s["text"] for s in sp["args"]], "retval": sp["ret"]["text"] if sp["ret"] else None}
+                             for f, sp in case["specs"].items()} if case["args"] else None,
+                "case": case,
                 "script_output": out1[:3000], "replay_output": out2[:3000], "stderr": (err1 + err2)[-500:],
                 "model_input": mlines[4 * i], "model_output": mout[4 * i], "model_shown": mout[4 * i + 2],
-                "other_problems": [p[1] for p in problems][:5],
+                "other_problems": problems[:5],
             }, no_failing_input=not mon)
     st["distinct"] = len(distinct)
     st["samples"] = samples
@@ -1140,10 +1203,24 @@ def run_e2e(ctx, uftrace, known):
 
 
 def run(ctx):
+    ctx.snapshot()
+    try:
+        from translators import scriptargs2lean
+        changed, info = scriptargs2lean.main(ctx.src, ctx.scratch)
+        OCT_CASE.update(info["oct_case"])
+        ctx.notes.append("Gen/ScriptArgs.lean regenerated from the snapshot (changed=%s); case ARG_FMT_OCT: %s" % (
+            changed, info["oct_case"]))
+    except Exception as e:       # the translator cannot read the sources any more
+        C.violation(ctx, "translator", {"kind": "translator-failed", "error": str(e),
+                                        "theorem": "c18_args_decode_roundtrip_*"}, True)
+        return C.finish(ctx)
     ok, problems = C.prove(ctx, "C18")
     if not ok:
         C.violation(ctx, "proof", {"kind": "proof-obligation-broken", "problems": problems}, True)
-        return C.finish(ctx)
+        # the model itself (uvmodel) does not depend on the proofs: go on and look for a concrete failing input
+        okb, _ = C.lake_build(["uvmodel"])
+        if not okb:
+            return C.finish(ctx)
     okm, log = ctx.make()
     uftrace = os.path.join(ctx.src, "uftrace")
     if not okm or not os.path.exists(uftrace):
@@ -1166,9 +1243,14 @@ def run(ctx):
         "evaluations": h3["cases"] + hk["cases"] + (e2e or {}).get("runs", 0),
         "distinct_nontrivial": h3["distinct"] + hk["distinct"],
         "rule": "H3: random properly nested per-task walks (1-4 tasks, depth <= 7 (30 thorough), recursion 0.2, open calls "
-                "at the end 0.3, timestamp ties 0.35, argument/retval payloads 0.6) x random -F/-N/-D/-t/--tid/--no-args x "
-                "UFTRACE_FUNCS (names, a regex, a non-existent name) x {python, lua 0.2} x replay {default, --no-merge}; "
-                "distinct = distinct model inputs with at least one entry/exit callback",
+                "at the end 0.3, timestamp ties 0.35) x random -F/-N/-D/-t/--tid/--no-args x UFTRACE_FUNCS (names, a regex, "
+                "a non-existent name) x {python, lua 0.2-0.35} x replay {default, --no-merge}; argument / return value "
+                "payloads (0.6; always in the groups args/argless/oct): per case 2-5 functions get 0-6 argument specs and "
+                "an optional retval spec drawn from /d /i /u /x (/o: group oct) x 8|16|32|64 bits, /c, /s (lengths 0-14 and "
+                "33, NULL), /S, /f32 /f64 /f80 and fpargN, /p (0, symbol addresses, others), /e:<type>, /t<size>[:<type>] in "
+                "any order; every decoded ctx['args'] / ctx['retval'] element is compared with the text replay prints for "
+                "the same record (canonical value per format) and with the value written; distinct = distinct (model "
+                "input, spec table, language) with at least one entry/exit callback",
         "rule_h1": "H1: random option sets of lib/mcgen.rand_opts (filters, depth, time, size, location, caller, triggers) "
                    "plus trace_off / trace_on triggers (0.55), 1-3 threads, random interleaved entry/exit walks (pg, cyg or "
                    "mixed hooks, depth <= 6, 80% complete), script function list via UFTRACE_ARGS (0.3); "
@@ -1183,9 +1265,12 @@ def run(ctx):
         "analysis time: user ENTRY/EXIT records of properly nested per-task streams starting at depth 0 (no LOST / EVENT / "
         "kernel / perf records, no fork/exec/longjmp fixups, depth < max_stack); options -F -N -D -t --tid --no-args; "
         "function names are unique per address; UFTRACE_FUNCS patterns are evaluated by Python's re / == on the check side",
-        "argument and return value payloads are opaque tokens in the model; their decoding (script-python.c "
-        "setup_argument_context vs replay's get_argspec_string) is compared on the implementation's outputs only "
-        "(8-byte integers within +-100000 and short strings)",
+        "argument and return value payloads are opaque tokens in the run model (Script.scriptRun); the layout of the "
+        "buffer (sizes and advances of the writer and of the replay / python / lua readers) is translated from the C "
+        "sources into Gen/ScriptArgs.lean on every run and the decode-of-encode theorems are re-checked against it; "
+        "how a value is presented (sign of /u8../u32 and of 8-byte values in the bindings, hex/octal/&symbol notation, "
+        "6-decimal floats, 'struct: T{}' vs T{...}) is normalised per format before script and replay are compared; "
+        "8-byte integers in Lua cases stay below 2^50 (Lua numbers are doubles); strings are ASCII without quotes",
         "record time: the script language binding is replaced by logging C functions (the `.testing` script type); "
         "the Python binding at record time is exercised by three end-to-end runs only; `finish` triggers are excluded",
         "timestamps are ordered per task, so that 64-bit differences do not wrap (the model uses truncated subtraction)",
@@ -1204,7 +1289,7 @@ def replay(ctx, path):
             print("snapshot build failed:", log[-1000:])
             return 2
         case = r["case"]
-        case["payloads"] = [(k, tuple(v)) for k, v in case["payloads"]]
+        case["specs"] = {int(k): v for k, v in case["specs"].items()}
         case["tasks"] = [dict(t, recs=[tuple(x) for x in t["recs"]]) for t in case["tasks"]]
         d = os.path.join(ctx.scratch, "replay-dir")
         sp = write_case(case, d)
@@ -1215,8 +1300,8 @@ def replay(ctx, path):
         print("---- uftrace script", " ".join(opts)); print(out1 + err1)
         print("---- uftrace replay", " ".join(opts)); print(out2 + err2)
         print("---- model (repaired)   :", m[0]); print("---- model (pre-fix args):", m[1]); print("---- model shown lines   :", m[2])
-        cbs, _ = canon_script(out1)
-        same = cbs == canon_model(case, m[0], case["lang"] == "lua")
+        cbs, _ = ev_script(case, out1)
+        same = cbs == ev_model(case, m[0])
         print("script output %s the model" % ("matches" if same else "DIFFERS from"))
         return 0 if same else 1
     if "ops" in r and "env" in r:        # record-time case
